@@ -461,6 +461,12 @@ spec_lookup(VDATA *vs, const char *tok, int16 *type, uint16 *order)
     return -1;
 }
 
+#ifndef SF_NTOK
+#define SF_NTOK 4
+#endif
+#ifndef SF_NUSYM
+#define SF_NUSYM 3
+#endif
 void
 h_VSsetfields_new(void)
 {
@@ -469,10 +475,10 @@ h_VSsetfields_new(void)
     H4V_ND(int32, scan_ret);
     H4V_ND(int32, scan_ac);
     H4V_ND(int, fields_null);
-    H4V_ASSUME(nusym >= 0 && nusym <= 3);
+    H4V_ASSUME(nusym >= 0 && nusym <= SF_NUSYM);
     H4V_ASSUME(scan_ret == FAIL || scan_ret == SUCCEED);
     /* up to 4 tokens, or any count above the limit (the token vector is then never read) */
-    H4V_ASSUME((scan_ac >= 0 && scan_ac <= 4) || scan_ac > VSFIELDMAX);
+    H4V_ASSUME((scan_ac >= 0 && scan_ac <= SF_NTOK) || scan_ac > VSFIELDMAX);
     g_scan_ret = scan_ret;
     g_scan_ac  = scan_ac;
     SYMDEF *usym = nusym ? malloc(3 * sizeof(SYMDEF)) : NULL;
